@@ -543,6 +543,67 @@ pub fn families() -> Vec<Box<dyn Family>> {
             },
         ),
         family(
+            "custom_tokenization",
+            "CALLER-SUPPLIED tokens: texts cut into 1..14 tokens from a pool that contains the EMPTY token, one- and multi-byte tokens; in half of the cases empty tokens are added until the number of tokens EQUALS the byte length of the text; TextDiff::configure().diff_slices over the tokens + TextDiffRemapper::new / from_text_diff against the concatenated texts x 3 algorithms: every remapped slice is the concatenation of its op's tokens and the substring at the cumulative offset (an op that only holds empty tokens legitimately gives an empty slice)",
+            false,
+            16,
+            |cfg| cfg.n(20_000, 400_000),
+            |idx, cfg, out| {
+                let mut rng = Rng::for_case(cfg.seed, "c17.custom_tokenization", idx);
+                const POOL: [&str; 10] = ["ab", ",", "", "c", "x", "\u{e9}", "\n", "  ", "", "kv"];
+                let mk = |rng: &mut Rng| -> Vec<&'static str> {
+                    let n = 1 + rng.below(if cfg.tiny { 4 } else { 14 });
+                    let mut v: Vec<&'static str> = (0..n).map(|_| *rng.pick(&POOL)).collect();
+                    if rng.chance(1, 2) {
+                        let bytes: usize = v.iter().map(|t| t.len()).sum();
+                        while v.len() < bytes {
+                            let at = rng.below(v.len() + 1);
+                            v.insert(at, "");
+                        }
+                    }
+                    v
+                };
+                let ta = mk(&mut rng);
+                let tb = if rng.chance(1, 3) {
+                    mk(&mut rng)
+                } else {
+                    let mut t = ta.clone();
+                    for _ in 0..1 + rng.below(3) {
+                        let at = rng.below(t.len() + 1);
+                        match rng.below(3) {
+                            0 if at < t.len() => {
+                                t.remove(at);
+                            }
+                            1 if at < t.len() => t[at] = *rng.pick(&POOL),
+                            _ => t.insert(at, *rng.pick(&POOL)),
+                        }
+                    }
+                    t
+                };
+                let (sa, sb): (String, String) = (ta.concat(), tb.concat());
+                let alg = ALGS[rng.below(3)];
+                out.sample(|| format!("alg={} old tokens={:?} new tokens={:?}", alg_name(alg), ta, tb));
+                out.nontrivial(&(alg_name(alg), &ta, &tb));
+                if ta.len() == sa.len() || tb.len() == sb.len() {
+                    out.count("cases_with_as_many_tokens_as_bytes");
+                }
+                out.eval();
+                let r = guard(|| {
+                    let d = TextDiff::configure().algorithm(alg).diff_slices(&ta, &tb);
+                    check_remapper(&d, sa.as_str(), sb.as_str())
+                });
+                match r {
+                    Err(p) => out.violation("panic", format!("remapping caller-supplied tokens panicked: {} | alg={} old tokens={:?} new tokens={:?}", p, alg_name(alg), ta, tb)),
+                    Ok((fails, n)) => {
+                        out.count_n("slices_observed", n);
+                        for (code, msg) in fails.iter().filter(|(c, _)| *c != "remap.empty_slice") {
+                            out.violation(code, format!("{} | alg={} old tokens={:?} new tokens={:?}", msg, alg_name(alg), ta, tb));
+                        }
+                    }
+                }
+            },
+        ),
+        family(
             "slices_rnd",
             "utils::diff_slices on seeded random item sequences x 3 algorithms: same reconstruction, no empty slice, slices are sub-slices of the inputs",
             false,
